@@ -223,6 +223,47 @@ def edge_scenario(args):
         s.close()
 
 
+def two_stream_scenario(args):
+    """two streams, relay / STUN servers configured on the second one BEFORE its gathering run, the first stream gathered first:
+    completion is announced once per gathering RUN — the second stream gets none while it has not been asked to gather, and
+    exactly one after its own run"""
+    exe, seed, tier = args
+    import random
+    rng = random.Random(f"C20two/{seed}")
+    s = simlib.Sim(exe)
+    bad = []
+    try:
+        script = rng.choice(["aa", "d", "uaa", "ae"])
+        s.op(f"net seed {seed}"); s.op("net latency 1 5")
+        s.op(f"server 127.0.0.60:3478 turn {script} user pass")
+        s.op("new A ctrl=1 compat=0 opts=0 rc=3 rto=500 addrs=127.0.0.1")
+        s.op("stream A 1"); s.op("stream A 1"); s.op("attach A 1"); s.op("attach A 2")
+        first, second = rng.choice([(1, 2), (2, 1)])
+        if rng.random() < 0.8:
+            s.op(f"relay A {second} 1 127.0.0.60:3478 user pass 0")
+        if rng.random() < 0.4:
+            s.op(f"relay A {first} 1 127.0.0.60:3478 user pass 0")
+        s.op(f"gather A {first}")
+        s.op(f"run {rng.choice([200, 3000, 8000])}")
+        d2 = len([e for e in s.events() if re.search(rf" A gathering-done {second}$", e)])
+        if d2:
+            bad.append(("done-without-run", f"stream {second} was never asked to gather, yet gathering-done was announced {d2} time(s) for it "
+                                            f"when stream {first} finished its run"))
+        s.op(f"gather A {second}")
+        s.op("run 9000")
+        for sid in (first, second):
+            n = len([e for e in s.events() if re.search(rf" A gathering-done {sid}$", e)])
+            if n != 1:
+                bad.append(("never-done" if n == 0 else "done-twice", f"stream {sid}: one gathering run, completion announced {n} times"))
+        return dict(seed=seed, bad=bad, known=[], script=s.script, servers=[("turn", "127.0.0.60:3478", script)], ncands=2,
+                    done_at=None, endless=None, glines=[])
+    except simlib.SimDied as e:
+        return dict(seed=seed, bad=[("crash", str(e)[-1500:])], known=[], script=s.script, servers=[], ncands=0, done_at=None,
+                    endless=None, glines=[])
+    finally:
+        s.close()
+
+
 def late_relay_scenario(args):
     """gathering restarted by adding a relay server AFTER a gathering run has completed and been announced: the new TURN server
     must be asked (Allocate), a second completion must be announced, and a granted allocation must show up as a relayed candidate"""
@@ -406,6 +447,7 @@ def run(tier, seed):
                                       [(exe, seed * 100000 + i, tier) for i in range(n)])
             res += simlib.run_parallel(edge_scenario, [(exe, seed * 100000 + i, tier) for i in range(8 if tier == "quick" else 60)])
             res += simlib.run_parallel(late_relay_scenario, [(exe, seed * 100000 + i, tier) for i in range(10 if tier == "quick" else 80)])
+            res += simlib.run_parallel(two_stream_scenario, [(exe, seed * 100000 + i, tier) for i in range(10 if tier == "quick" else 80)])
             kinds, behs = {}, {}
             k3 = None
             for r in res:
